@@ -241,3 +241,13 @@ Definition MV_many_set_ok (union : bool) (ls : list (list val)) (obs : list val)
   vlist_eqb (M_index_many_set val_eqb lleb_val union ls) obs.
 Definition SV_many_set_ok (union : bool) (ls : list (list val)) (obs : list val) : bool :=
   nodupb val_eqb obs && same_set obs (S_aligned val_eqb union ls).
+
+(* ------------------------------------------------------------------ kernel: TypeBlocks.fillna_by_values *)
+Definition MV_fillna_ok (t : tb val) (vals : list (dtype * list val)) (obs : tb val) : bool :=
+  list_eqb block_eqb (drop_empty (M_fillna_blocks cast_val resolve_val isna t vals)) obs.
+(* per cell: the value unless it is missing, then the aligned value of the same column *)
+Definition SV_fillna_ok (t : tb val) (vals : list (dtype * list val)) (obs : tb val) : bool :=
+  list_eqb cells_equiv (map snd (flatten obs))
+    (map (fun cv : (dtype * list val) * (dtype * list val) =>
+            map (fun xv : val * val => overlay_step isna (fst xv) (snd xv)) (combine (snd (fst cv)) (snd (snd cv))))
+         (combine (flatten t) vals)).
